@@ -64,5 +64,6 @@ def get_angle_spec_from_float(angle: float, tol: float = 1e-4) -> List[Tuple[int
         while (n_new % 2) == 0:
             n_new, d_new = (int(n_new / 2), d_new - 1)
         nds[i] = (n_new, d_new)
-    nds = [(n, d) for (n, d) in nds if d < 32]
+    # Only keep terms whose `d` fits in the immediate field of a rotation instruction
+    nds = [(n, d) for (n, d) in nds if d < 2**IMMEDIATE_BITS]
     return nds
